@@ -468,6 +468,17 @@ def DurPar.column : DurPar → Nat → Option (List Rat)
   | .plain d, n => some (List.replicate n d)
   | .drawn ds, n => if ds.length = n then some ds else none
 
+/-- A duration given as a TIME PARAMETER (`ss.dur(D)`, `ss.years(D)`): the number that `np.ones(len(p1)) * pars.dur`
+    multiplies is the parameter's value in TIMESTEPS of the network, `D / dt`. -/
+def timeparValue (D dt : Rat) : Rat := D / dt
+
+/-- What one update subtracts from a duration counted in timesteps: `asis` — `dt`, as for every other duration
+    (`DynamicNetwork.end_pairs`: `dur = dur - self.t.dt`, whatever the form of the parameter); `spec` — one timestep. -/
+def stepsCountdown (v : Variant) (dt : Rat) : Rat :=
+  match v with
+  | .asis => dt
+  | .spec => 1
+
 /-- the random choice of a step, its durations being those the duration parameter states -/
 def Choice.withDur (c : Choice) (s : DurPar) : Choice := { c with durAt := s.durAt }
 
